@@ -121,12 +121,18 @@ func (c *Conversation) processDataMessageWithRawErrors(header, msg []byte) (plai
 		return
 	}
 
+	macKeyOwed := c.keys.macKeyHistory.has(dataMessage.recipientKeyID, dataMessage.senderKeyID)
+
 	sessionKeys, err := c.keys.calculateDHSessionKeys(dataMessage.recipientKeyID, dataMessage.senderKeyID, c.version)
 	if err != nil {
 		return
 	}
 
 	if err = dataMessage.checkSign(sessionKeys.receivingMACKey, header, c.version); err != nil {
+		if !macKeyOwed {
+			// the key has vouched for nothing: a refused message must not make us disclose it later
+			c.keys.macKeyHistory.forgetKeys(dataMessage.recipientKeyID, dataMessage.senderKeyID)
+		}
 		return
 	}
 
